@@ -4,7 +4,7 @@ from __future__ import annotations
 import collections
 import json
 
-from .. import ir, lift
+from .. import denote, ir, lift
 from ..core import VERIF, AnalysisError
 from ..dispatchers import dispatch_summary
 from ..loader import fn_where, link
@@ -23,8 +23,10 @@ EXPLANATION = (
     "scalar kind (float vs bool) agree with what is returned; the 82 dispatch() functions look up the "
     "signature and feed coordinates in the same operand/group order, pass scalar extras first and in the "
     "variants' order, give _wrap_result the unpacked `returns` and the frozen num_vecargs, and every table has "
-    "the full product of signatures.  Not decided: agreement *between* distinct native bases of one module "
-    "(transcendental identities; partially covered by C02/C09/C11), float rounding, run-time wrapping (C03)."
+    "the full product of signatures.  Agreement *between* distinct native bases of one module (C01.base-agreement): "
+    "each frozen native base is denoted in Cartesian generators and compared with the module's all-Cartesian entry; "
+    "held only by normal-form proof, violated only with a concrete differing point of the representable domain, "
+    "otherwise listed as undecided.  Not decided: the per-system comparison modules, float rounding, run-time wrapping (C03)."
 )
 
 SIG_TOKENS = {"xy", "rhophi", "z", "theta", "eta", "t", "tau"}
@@ -125,13 +127,34 @@ def run(ctx):
                None, L.short(mn), sample={"dims": dims, "signatures": len(coord_keys), "extra_keys": len(extras)})
         # ---- dispatcher
         _dispatch_rules(ctx, L, mn, sh, dtab)
+    _base_agreement(ctx, L, bases)
     ctx.anchor("table entries", n_entries, 2404)
     ctx.analysed["entries"] = n_entries
     ctx.analysed["base_templates"] = n_templates
     ctx.analysed["modules"] = len(L.mods)
-    ctx.decline("agreement between distinct native bases of one module (e.g. polar vs Cartesian addition in the azimuth): transcendental identities outside the ring fragment; see C02/C09/C11 for the parts that are decided")
+    ctx.decline("agreement of the per-system comparison modules (equal, not_equal, isclose) across systems: comparing in the operands' common system is the module's stated policy and tolerances are not coordinate-invariant")
     ctx.decline("float64 rounding differences between variants")
     ctx.decline("run-time wrapping of results by the backends (C03) and pass-through of higher coordinates")
+
+
+def _base_agreement(ctx, L, bases):
+    """E3b: every native base of a module denotes the same function of the (Cartesian) operands as its Cartesian base"""
+    ctx.rule("C01.base-agreement", denote.RULE_DOC)
+    n_pairs = n_proved = 0
+    undecided = []
+    for rec in denote.base_agreement(L, bases):
+        n_pairs += rec.new_pair
+        if rec.status == "undecided":
+            undecided.append(rec.construct)
+            continue
+        n_proved += rec.status == "proved"
+        ctx.ob("C01.base-agreement", rec.construct, rec.status == "proved", rec.message, rec.witness, rec.where, sample=rec.sample)
+    ctx.anchor("native base / Cartesian base pairs compared", n_pairs, 100)
+    ctx.analysed["base_pairs"] = n_pairs
+    ctx.analysed["base_pairs_proved"] = n_proved
+    ctx.analysed["base_pairs_undecided"] = undecided
+    if undecided:
+        ctx.decline("C01.base-agreement left undecided (no proof in the ring fragment, no differing point found): " + ", ".join(undecided))
 
 
 def _nearest(t, base_t):
